@@ -147,7 +147,8 @@ from typing import Any, TypeAlias
 from ...ast.fpyast import *
 from ...ast.visitor import Visitor
 from ...function import Function
-from ...number import INTEGER, REAL, Context, Float, RealFloat
+from ...number import INTEGER, OV, REAL, RM, Context, EFloatContext, Float, RealFloat, RoundingMode
+from ...number.context.exponential import ExpFormat
 from ...number.format import REAL_FORMAT, Format
 from ...types import (
     BoolType,
@@ -225,6 +226,28 @@ def _unconstrained(
         _INF, exp, pos_bound, neg_bound=neg_bound,
         has_pos_inf=True, has_neg_inf=True, has_nan=True, has_neg_zero=True,
     )
+
+
+def _substitutes(ctx: Context, attr: str) -> bool:
+    """Does *ctx* return a stand-in for an infinity / NaN it cannot represent
+    (*attr* is ``'inf_value'`` or ``'nan_value'``) rather than raising?  The
+    ``EFloat`` family always does; the others only when configured to."""
+    return isinstance(ctx, EFloatContext) or getattr(ctx, attr, None) is not None
+
+
+def _round_bound(
+    b: RealFloat | float, prec: int | float, exp: int | float, rm: RoundingMode,
+) -> RealFloat | float:
+    """*b* moved (by *rm*: away from or toward zero) onto the grid of at most
+    *prec* digits, none finer than ``2 ** exp``.  An unbounded side stays
+    unbounded."""
+    if isinstance(b, float) or b.is_zero():
+        return b
+    max_p = prec if isinstance(prec, int) else None
+    min_n = exp - 1 if isinstance(exp, int) else None
+    if max_p is None and min_n is None:
+        return b
+    return b.round(max_p, min_n, rm)
 
 
 def _holds_only_zero(af: AbstractFormat) -> bool:
@@ -1152,6 +1175,10 @@ def round_is_identity(
         return _all_representable_in(unrounded.values, ctx_fmt)
     if not isinstance(ctx_fmt, AbstractableFormat):
         return False
+    if isinstance(ctx_fmt, ExpFormat):
+        # powers of two only: it has no zero (one rounds to NaN), and every
+        # AbstractFormat holds one -- `from_format` over-approximates here
+        return False
     return unrounded <= AbstractFormat.from_format(ctx_fmt)
 
 
@@ -1827,7 +1854,9 @@ class _FormatInferInstance(Visitor):
             # to produce a precise image even when some values exceed the scope
             # It is unclear how this affects the overal algorithm.
             return None
-        if not isinstance(scope_fmt, AbstractableFormat):
+        if not isinstance(scope_fmt, AbstractableFormat) or isinstance(scope_fmt, ExpFormat):
+            # (an `ExpFormat` turns zero and every negative value into NaN,
+            # which no intersection with F describes)
             return None
         scope_af = AbstractFormat.from_format(scope_fmt)
         if scope_af <= exact:
@@ -1850,15 +1879,56 @@ class _FormatInferInstance(Visitor):
         # When ``F.prec > C.prec`` we fall back to C's bounds.
         # ``int | float`` comparison works directly with the
         # ``float('inf')`` sentinel used for unbounded prec.
+        # Overflow first: a value of F beyond C's range comes back as C's
+        # largest value, an infinity, or (wrapping) anything in C's range --
+        # none of which sits on F's grid or inside F's bounds.  Nothing about
+        # F survives that, so only C itself bounds the image.  The exception is
+        # a context that *asserts* on overflow: it returns nothing for such a
+        # value, so there C's bound simply cuts F's range short.
+        # A special value of F that C lacks either makes the rounding raise --
+        # then it yields no value and simply drops out -- or is replaced by
+        # whatever C substitutes for it (its largest value, a configured
+        # stand-in), which again has nothing to do with F.
+        lost_inf = ((exact.has_pos_inf and not scope_af.has_pos_inf)
+                    or (exact.has_neg_inf and not scope_af.has_neg_inf))
+        lost_nan = exact.has_nan and not scope_af.has_nan
+        if ((lost_inf and _substitutes(resolved, 'inf_value'))
+                or (lost_nan and _substitutes(resolved, 'nan_value'))):
+            return scope_fmt
+        asserts = getattr(resolved, 'overflow', None) is OV.ASSERT
+        pos_over = exact.pos_bound > scope_af.pos_bound
+        neg_over = exact.neg_bound < scope_af.neg_bound
+        if (pos_over or neg_over) and not asserts:
+            return scope_fmt
+
         prec = min(exact.prec, scope_af.prec)
         exp = max(exact.exp, scope_af.exp)
-        if exact.prec > scope_af.prec:
-            pos_bound = scope_af.pos_bound
-            neg_bound = scope_af.neg_bound
+        # A bound of F that lies within C's range bounds the image once it is
+        # moved *outward* onto the image's own grid: rounding is monotone, and a
+        # bound that is not representable at (prec, exp) may itself round up.
+        # A bound cut short by C moves *inward*: nothing beyond it is returned.
+        if pos_over:
+            pos_bound = _round_bound(scope_af.pos_bound, prec, exp, RM.RTZ)
         else:
-            pos_bound = min(exact.pos_bound, scope_af.pos_bound)
-            neg_bound = max(exact.neg_bound, scope_af.neg_bound)
-        overlap = AbstractFormat(prec, exp, pos_bound, neg_bound=neg_bound)
+            pos_bound = _round_bound(exact.pos_bound, prec, exp, RM.RAZ)
+        if neg_over:
+            neg_bound = _round_bound(scope_af.neg_bound, prec, exp, RM.RTZ)
+        else:
+            neg_bound = _round_bound(exact.neg_bound, prec, exp, RM.RAZ)
+        # Special values pass through unchanged -- with F's range inside C's
+        # nothing overflows into an infinity -- and the one rounding can add is
+        # `-0.0`: a negative value too fine for C's grid rounding to zero.
+        has_neg_zero = scope_af.has_neg_zero and (
+            exact.has_neg_zero
+            or (exact.exp < scope_af.exp and exact.neg_bound < RealFloat.from_int(0))
+        )
+        overlap = AbstractFormat(
+            prec, exp, pos_bound, neg_bound=neg_bound,
+            has_pos_inf=exact.has_pos_inf and scope_af.has_pos_inf,
+            has_neg_inf=exact.has_neg_inf and scope_af.has_neg_inf,
+            has_nan=exact.has_nan and scope_af.has_nan,
+            has_neg_zero=has_neg_zero,
+        )
         return self._materialize_in_scope(overlap, scope_fmt)
 
     @staticmethod
